@@ -1,9 +1,310 @@
-//! stub
-use super::Ctx;
-use crate::engine::evidence::{Case, Report, Verdict};
-pub fn run(_ctx: &Ctx, _rep: &mut Report) {
-    crate::engine::monitor::machinery_fail("not implemented");
+//! C19 - hand containers store and return exactly the words put into them.
+//!
+//! E2 (explicit-state graph per size n = 2..7, the real setters as the transition function):
+//!   word alphabet W = {0, ace of spades, deuce of clubs with the pair flag, 0xFFFFFFFF}; states = all 4^n
+//!   containers, every one also an initial state built by every public constructor form (From<[u32; N]>, new,
+//!   From<&[u32; 2]>, Default + setters, Three(pub ..), Six::from_1_and_2_and_3, Seven::new(Two, Five));
+//!   actions = every setter x every w in W (4n actions). The invariant "real container == shadow array" is read
+//!   through to_arr, first()..seventh(), iter(), == with a freshly constructed container and every other
+//!   constructor form; each edge must change exactly the named slot. The graph is closed under the actions, so the
+//!   invariant holds for EVERY setter history of any length over W, and states reached by setters are compared with
+//!   the same states constructed directly (differential oracle).
+//! E1: every setter x a word family (all 16-bit patterns at shifts 0 and 16; thorough: ALL 2^32 words) from two base
+//!   states; five_from_permutation for every in-range index tuple (6^5 + 7^5) on containers with distinct slots.
+use super::hands::AnyHand;
+use super::{confirm, sample_json, Ctx};
+use crate::engine::enumerate::{par_parts, tuple_decode};
+use crate::engine::evidence::{profile_name, Acc, Case, Report, Verdict, Violation};
+use crate::engine::explore::Bfs;
+use crate::engine::monitor::{self, guard};
+use crate::oracle::cards::Card;
+use ckc_rs::cards::seven::Seven;
+use ckc_rs::cards::six::Six;
+use ckc_rs::cards::Permutator;
+use std::time::Instant;
+
+fn alphabet() -> [u32; 4] {
+    [0, Card::new(12, 3).word(), Card::new(0, 0).word() | (1 << 29), u32::MAX]
 }
-pub fn judge(_case: &Case) -> Verdict {
-    Verdict::NotJudged("not implemented".into())
+
+#[derive(Clone, Debug, PartialEq, Eq, Hash)]
+struct St {
+    real: AnyHand,
+    shadow: Vec<u32>,
+}
+
+fn invariant(s: &St) -> Result<(), String> {
+    let n = s.shadow.len();
+    let r = guard(|| {
+        let arr = s.real.to_vec();
+        let acc: Vec<u32> = (0..n).map(|i| s.real.get(i)).collect();
+        let it = s.real.iter_vec();
+        let fresh_equal = AnyHand::from_words(&s.shadow) == s.real;
+        let forms: Vec<(&'static str, bool)> = AnyHand::constructor_forms(&s.shadow).into_iter().map(|(name, h)| (name, h == s.real && h.to_vec() == s.shadow)).collect();
+        (arr, acc, it, fresh_equal, forms)
+    });
+    match r {
+        Err(p) => Err(format!("panic: {}", p)),
+        Ok((arr, acc, it, fresh_equal, forms)) => {
+            if arr != s.shadow {
+                return Err(format!("to_arr: {:x?}, the array model holds {:x?}", arr, s.shadow));
+            }
+            if acc != s.shadow {
+                let i = (0..n).find(|i| acc[*i] != s.shadow[*i]).unwrap();
+                return Err(format!("accessor-{}: {:#x}, the array model holds {:#x} in that slot", AnyHand::SLOT_NAMES[i], acc[i], s.shadow[i]));
+            }
+            if it != s.shadow {
+                return Err(format!("iter: {:x?}, the array model holds {:x?}", it, s.shadow));
+            }
+            if !fresh_equal {
+                return Err("eq: differs from a container freshly constructed from the same words".into());
+            }
+            if let Some((name, _)) = forms.iter().find(|f| !f.1) {
+                return Err(format!("constructor-{}: does not store the given words in the given slots {:x?}", name, s.shadow));
+            }
+            Ok(())
+        }
+    }
+}
+
+fn step(s: &St, a: &(usize, u32)) -> Result<St, String> {
+    let (slot, w) = *a;
+    let real = guard(|| s.real.set(slot, w)).map_err(|p| format!("panic in set_{}: {}", AnyHand::SLOT_NAMES[slot], p))?;
+    let mut shadow = s.shadow.clone();
+    shadow[slot] = w;
+    let got = real.to_vec();
+    if got != shadow {
+        let changed: Vec<usize> = (0..shadow.len()).filter(|i| got[*i] != s.shadow[*i]).collect();
+        return Err(format!("setter-{}: set_{}({:#x}) on {:x?} gave {:x?} (slots changed: {:?}), expected {:x?}", AnyHand::SLOT_NAMES[slot], AnyHand::SLOT_NAMES[slot], w, s.shadow, got, changed, shadow));
+    }
+    Ok(St { real, shadow })
+}
+
+/// Case kinds:
+///   "history"     [n, n initial words, then (slot, word) pairs]
+///   "setter-word" [n, slot, word, n base words]
+///   "permutation" [n, p0..p4, n container words]
+pub fn judge(case: &Case) -> Verdict {
+    let w = &case.words;
+    let n = w.first().copied().unwrap_or(0) as usize;
+    if !(2..=7).contains(&n) {
+        return Verdict::NotJudged("size 2..7".into());
+    }
+    match case.kind.as_str() {
+        "history" => {
+            if w.len() < 1 + n || (w.len() - 1 - n) % 2 != 0 {
+                return Verdict::NotJudged("malformed history".into());
+            }
+            let init: Vec<u32> = w[1..1 + n].iter().map(|x| *x as u32).collect();
+            let mut s = St { real: AnyHand::from_words(&init), shadow: init };
+            let mut i = 1 + n;
+            let mut k = 0;
+            loop {
+                if let Err(e) = invariant(&s) {
+                    return Verdict::Violated { class: format!("{}:{}", AnyHand::size_name(n), e.split(':').next().unwrap_or("invariant")), expected: "container == array model".into(), observed: format!("after {} setter calls: {}", k, e) };
+                }
+                if i >= w.len() {
+                    return Verdict::Holds;
+                }
+                let (slot, word) = (w[i] as usize, w[i + 1] as u32);
+                if slot >= n {
+                    return Verdict::NotJudged("slot out of range".into());
+                }
+                match step(&s, &(slot, word)) {
+                    Ok(ns) => s = ns,
+                    Err(e) => return Verdict::Violated { class: format!("{}:{}", AnyHand::size_name(n), e.split(':').next().unwrap_or("step")), expected: "the setter changes only the named slot".into(), observed: format!("setter call {}: {}", k + 1, e) },
+                }
+                i += 2;
+                k += 1;
+            }
+        }
+        "setter-word" => {
+            if w.len() != 3 + n || w[1] as usize >= n {
+                return Verdict::NotJudged("malformed".into());
+            }
+            let base: Vec<u32> = w[3..].iter().map(|x| *x as u32).collect();
+            let s = St { real: AnyHand::from_words(&base), shadow: base };
+            match step(&s, &(w[1] as usize, w[2] as u32)).and_then(|ns| invariant(&ns)) {
+                Ok(()) => Verdict::Holds,
+                Err(e) => Verdict::Violated { class: format!("{}:{}", AnyHand::size_name(n), e.split(':').next().unwrap_or("setter")), expected: "only the named slot takes the word".into(), observed: e },
+            }
+        }
+        "permutation" => {
+            if (n != 6 && n != 7) || w.len() != 6 + n || w[1..6].iter().any(|p| *p as usize >= n) {
+                return Verdict::NotJudged("malformed".into());
+            }
+            let perm = [w[1] as u8, w[2] as u8, w[3] as u8, w[4] as u8, w[5] as u8];
+            let cont: Vec<u32> = w[6..].iter().map(|x| *x as u32).collect();
+            let exp: Vec<u32> = perm.iter().map(|p| cont[*p as usize]).collect();
+            let r = guard(|| {
+                if n == 6 {
+                    Six::from([cont[0], cont[1], cont[2], cont[3], cont[4], cont[5]]).five_from_permutation(perm).to_arr().to_vec()
+                } else {
+                    Seven::from([cont[0], cont[1], cont[2], cont[3], cont[4], cont[5], cont[6]]).five_from_permutation(perm).to_arr().to_vec()
+                }
+            });
+            match r {
+                Err(p) => Verdict::Violated { class: format!("panic:{}:five_from_permutation", AnyHand::size_name(n)), expected: format!("{:x?}", exp), observed: format!("panic: {}", p) },
+                Ok(got) if got != exp => {
+                    let k = (0..5).find(|k| got[*k] != exp[*k]).unwrap();
+                    Verdict::Violated { class: format!("{}:five_from_permutation:output-slot-{}", AnyHand::size_name(n), k + 1), expected: format!("slots {:?} of {:x?} = {:x?}", perm, cont, exp), observed: format!("{:x?}", got) }
+                }
+                Ok(_) => Verdict::Holds,
+            }
+        }
+        _ => Verdict::NotJudged("unknown kind".into()),
+    }
+}
+
+pub fn run(ctx: &Ctx, rep: &mut Report) {
+    let wal = alphabet();
+    // E2
+    for n in 2..=7usize {
+        let t0 = Instant::now();
+        let total = 4u64.pow(n as u32);
+        let mut inits = Vec::new();
+        let mut idx = vec![0usize; n];
+        for t in 0..total {
+            tuple_decode(t, 4, &mut idx);
+            let w: Vec<u32> = idx.iter().map(|i| wal[*i]).collect();
+            inits.push((St { real: AnyHand::from_words(&w), shadow: w.clone() }, format!("From<[u32; {}]>({:x?})", n, w)));
+        }
+        // the default container must be the all-blank state
+        let dflt = AnyHand::default_of(n);
+        inits.push((St { real: dflt, shadow: vec![0; n] }, "Default".into()));
+        let mut actions = Vec::new();
+        for slot in 0..n {
+            for w in wal {
+                actions.push((slot, w));
+            }
+        }
+        let label = |a: &(usize, u32)| format!("set_{}({:#x})", AnyHand::SLOT_NAMES[a.0], a.1);
+        let ex = Bfs { inits, actions: &actions, step: &step, invariant: &invariant, label: &label, max_states: total }.run();
+        let mut acc = Acc::new(1);
+        acc.cases = ex.states;
+        acc.calls = ex.transitions + ex.states * (n as u64 + 5);
+        acc.nontrivial = ex.states;
+        rep.hist_add(&format!("graph_n{}:states", n), ex.states);
+        rep.hist_add(&format!("graph_n{}:transitions", n), ex.transitions);
+        rep.hist_add(&format!("graph_n{}:setter_reached_states_equal_to_constructed_ones", n), ex.reconverged);
+        if let Some((trace, why)) = &ex.violation {
+            // replayable history: initial words from the init label are recovered by re-deriving the trace
+            let mut codes: Vec<u64> = vec![n as u64];
+            let init_words: Vec<u32> = if trace[0].contains("Default") {
+                vec![0; n]
+            } else {
+                // parse the hex list out of the label
+                trace[0].split('[').last().unwrap_or("").trim_end_matches(|c| c == ']' || c == ')').split(',').filter_map(|x| u32::from_str_radix(x.trim().trim_start_matches("0x"), 16).ok()).collect()
+            };
+            let init_words = if init_words.len() == n { init_words } else { vec![0; n] };
+            codes.extend(init_words.iter().map(|x| *x as u64));
+            for l in trace.iter().skip(1) {
+                if let Some(a) = actions.iter().find(|a| label(a) == *l) {
+                    codes.push(a.0 as u64);
+                    codes.push(a.1 as u64);
+                }
+            }
+            let case = Case::new("history", &codes);
+            match confirm(judge, case.clone()) {
+                Some(mut v) => {
+                    v.trace = trace.clone();
+                    acc.violate(v);
+                }
+                None => acc.violate(Violation { class: format!("{}:unreplayed", AnyHand::size_name(n)), case, expected: "container == array model".into(), observed: why.clone(), profile: profile_name().into(), trace: trace.clone() }),
+            }
+        } else {
+            rep.guard(&format!("n={}: closed graph of exactly 4^{} states, all {} setter edges executed from each", n, n, 4 * n), ex.states == total && ex.transitions == total * 4 * n as u64, format!("{} states {} transitions", ex.states, ex.transitions));
+            rep.guard(&format!("n={}: every setter-reached state coincides with a constructed one", n), ex.reconverged > 0, format!("{}", ex.reconverged));
+        }
+        rep.add_space(&format!("E2: size {}: 4^{} states x {} setter actions, every constructor form", n, n, 4 * n), &acc, t0, "closed graph: every setter history of any length over W");
+    }
+    // E1: setters x word families
+    {
+        let t0 = Instant::now();
+        let kind = monitor::kind_id("setter-word");
+        let thorough = ctx.tier.thorough();
+        let bases: [u32; 2] = [0, 0xA5A5_5A5A];
+        let mut jobs = Vec::new();
+        for n in 2..=7usize {
+            for slot in 0..n {
+                for b in 0..2 {
+                    jobs.push((n, slot, b));
+                }
+            }
+        }
+        let chunks: u64 = if thorough { 64 } else { 1 };
+        let accs = par_parts(jobs.len() * chunks as usize, |j| {
+            let (n, slot, b) = jobs[j / chunks as usize];
+            let chunk = (j as u64) % chunks;
+            let mut acc = Acc::new(1);
+            let base: Vec<u32> = (0..n).map(|i| bases[b].wrapping_add(i as u32 * 0x0101_0101)).collect();
+            let h = AnyHand::from_words(&base);
+            monitor::beat(kind, &[n as u64, slot as u64, chunk]);
+            let mut one = |w: u32, acc: &mut Acc| {
+                acc.cases += 1;
+                acc.calls += 1;
+                acc.nontrivial += 1;
+                let ok = match guard(|| h.set(slot, w)) {
+                    Ok(x) => {
+                        let mut out = [0u32; 7];
+                        x.write_to(&mut out[..n]);
+                        (0..n).all(|i| out[i] == if i == slot { w } else { base[i] }) && x.get(slot) == w
+                    }
+                    Err(_) => false,
+                };
+                if !ok {
+                    let mut words = vec![n as u64, slot as u64, w as u64];
+                    words.extend(base.iter().map(|x| *x as u64));
+                    match confirm(judge, Case::new("setter-word", &words)) {
+                        Some(v) => acc.violate(v),
+                        None => monitor::machinery_fail("C19 setter mismatch not reproduced"),
+                    }
+                }
+            };
+            if thorough {
+                let lo = chunk << 26;
+                for x in lo..lo + (1 << 26) {
+                    one(x as u32, &mut acc);
+                }
+            } else {
+                for x in 0..=0xFFFFu32 {
+                    one(x, &mut acc);
+                    one(x << 16, &mut acc);
+                }
+            }
+            acc
+        });
+        let acc = Acc::merged(accs);
+        rep.add_space(if thorough { "every setter (27) x ALL 2^32 words from two base states" } else { "every setter (27) x all 16-bit patterns at shifts 0 and 16, from two base states" }, &acc, t0, "only the named slot takes the word, every other slot keeps its content");
+    }
+    // five_from_permutation
+    {
+        let t0 = Instant::now();
+        let mut acc = Acc::new(1);
+        for n in [6usize, 7] {
+            let cont: Vec<u32> = (0..n).map(|i| Card::from_deck_index((i * 7 + 3 + ctx.seed as usize) % 52).word()).collect();
+            let total = (n as u64).pow(5);
+            let mut idx = [0usize; 5];
+            for t in 0..total {
+                tuple_decode(t, n as u64, &mut idx);
+                acc.cases += 1;
+                acc.calls += 1;
+                acc.nontrivial += 1;
+                let mut words = vec![n as u64];
+                words.extend(idx.iter().map(|x| *x as u64));
+                words.extend(cont.iter().map(|x| *x as u64));
+                if let Verdict::Violated { .. } = judge(&Case::new("permutation", &words)) {
+                    if let Some(v) = confirm(judge, Case::new("permutation", &words)) {
+                        acc.violate(v);
+                    }
+                }
+            }
+        }
+        rep.guard("6^5 + 7^5 index tuples", acc.cases == 7776 + 16807, format!("{}", acc.cases));
+        rep.add_space("five_from_permutation: every in-range index tuple on Six and Seven with distinct slots", &acc, t0, "output slot k = input slot perm[k]");
+    }
+    rep.sample(sample_json("history", "Seven::default(); set_seventh(0xffffffff); set_first(A♠)", &format!("{:x?}", AnyHand::default_of(7).set(6, u32::MAX).set(0, Card::new(12, 3).word()).to_vec())));
+    rep.rule = "graph states (containers over W) and setter edges; distinct (setter, word, base) triples; distinct index tuples - all non-trivial (each is a distinct write or read pattern)".into();
+    rep.bound = "every setter history of ANY length over a 4-word alphabet (closed graphs, n = 2..7); one free word per setter; every index tuple for five-slot selection".into();
+    rep.assume("the state key is the complete observable content (to_arr), exact because the containers are plain Copy arrays with derived Eq");
 }
